@@ -60,6 +60,13 @@ CHECKS = {
    note="Not judged (statement silent): crealm/sname/srealm of TGS replies, the ticket's clear-text realm, the unauthenticated etype label of the enc-part, caddr in a reply when none were requested. Benign variations that must be accepted: enc-part application tag 25<->26, name-type-only change. Trusts the simulated KDC (validated by driving gokrb5's own client through all six etypes).",
    technique="bounded-exhaustive enumeration of single-field perturbations of genuine replies x etype x credential x exchange on the real client against a simulated KDC",
    engine="enum"),
+ "C12": dict(
+   category="fault_enumeration",
+   text="Every assignment of a behaviour from {answers, refuses, closes early, silent, answers KRB-ERROR, response-too-big on UDP / partial reply on TCP} to each (KDC, transport) endpoint for 1, 2 and 3 configured KDCs (36 + 1,296 + 46,656 assignments) x udp_preference_limit {1, below the request size, above it} x the orders the random server ordering can produce (all for 1-2 KDCs; the default order for 3 KDCs in the quick tier and all 36 in the thorough tier) is run through the real Client.sendToKDC over the in-memory network. Clauses: success returns exactly the reply of an answering endpoint on a permitted transport (never empty); a surfaced KRBError carries a code some endpoint sent; with no KRB-ERROR endpoint, success iff some permitted endpoint answers; the first responding KDC of the first transport decides (too-big on UDP defers to TCP); connection attempts are bounded by twice the number of endpoints. A reduced set (2 KDCs, 4 behaviours) is also run through Client.Login with the simulated KDC behind the answering endpoints.",
+   design="DESIGN.md 2/C12",
+   note="Endpoint fidelity (UDP datagram = one read, TCP = stream with 4-byte prefix, deadline = timeout error without waiting) is an assumption of the in-memory network shim. Random order is scripted, not sampled.",
+   technique="exhaustive enumeration of fault assignments x configurations on the real fail-over code over a simulated network",
+   engine="enum"),
  "C13": dict(
    category="model_checking",
    text="For each of the 17 listed types a baseline value, every single field variant and every pair of variants of different fields (optionals present/absent, integers at the 8/16/32-bit boundaries and negative, 0-4 name components, string lengths {0,1,127,128,255,256,65535,65536}, every flag bit, 0-3 additional tickets, 1-9 etypes) is encoded by the independent strict-DER reference (which reproduces the MIT reference encodings byte for byte), decoded by gokrb5 and re-encoded: the bytes must be identical, which makes the independent decoder's view of gokrb5's output equal to the model. The same for real encrypted Ticket / AP-REQ / AS-REP / TGS-REP / KRB-PRIV of every etype after Decrypt / Verify / DecryptEncPart; values built with gokrb5's constructors (SetFlag for every bit, NewKRBError, MarshalTicketSequence, AddASNAppTag) are decoded by the strict reference decoder; MarshalLengthBytes / GetLengthFromASN / GetNumberBytesInLengthHeader are compared with the reference for every length 0..2^24.",
